@@ -6,4 +6,4 @@ Extraction Language OCaml.
 Extraction "model.ml"
   Z.add Z.mul Z.sub Z.div_eucl Z.compare Z.of_nat
   run_vec run_vec_intcast run_segidx
-  run_cpq run_rw run_simple run_allot run_msizes run_mseq run_llo run_guards run_pipebuf.
+  run_cpq run_rw run_simple run_allot run_msizes run_mseq run_llo run_guards run_pipebuf run_cpqf.
